@@ -12,12 +12,19 @@ def check(prop, tier, only):
     import vlib
     cfgs = ["rwd", "dbg"] if tier == "quick" else ["rel", "rwd", "dbg", "dbg16"]
     jobs = [checks.J("h_exc", cfg, f"--alloc {a}", name=f"exc/{a}[{cfg}]") for cfg in cfgs for a in ALLOCS]
+    # optimised twin (-O2 via pragma inside the TU, so --replay rebuilds it identically): only the helpers that create
+    # and release the object inside one function, all fixtures in one process
+    jobs += [checks.J("h_exc_o2", cfg, "--alloc all", name=f"exc-O2/scoped[{cfg}]") for cfg in cfgs]
     note = ("every (allocator fixture: instrumented logging RawAllocator, tracked memory_pool with 512- and 16-byte nodes, "
             "tracked memory_stack, tracked heap_allocator) x (allocate_unique<T> default/value/copy/move, its any_allocator "
             "variant, allocate_unique<T[]>(n) typed and type-erased, allocate_shared<T> default/value/copy/move, "
             "allocate_joint / joint_ptr constructor with each joint_array constructor form (size; size+value; "
             "initializer_list; iterator range copying / converting / moving; copy; move), clone_joint, and the same eight "
-            "joint_array constructions stand-alone over an existing joint object) x n in 0..16 x failing construction "
+            "joint_array constructions stand-alone over an existing joint object; joint types taking an element BY VALUE "
+            "(lvalue / const lvalue / rvalue argument, with further arguments, and clone_joint through a converting "
+            "by-value parameter): the parameter's copy/move fails before the joint_type base exists; value categories x "
+            "mixed noexcept specifications for unique/shared; 'scoped' joint helpers that create and release inside one "
+            "function, additionally built with -O2 as h_exc_o2) x n in 0..16 x failing construction "
             "k in 1..n (+1 = body of the joint type's constructor) and the success run. Oracle per run: per-object "
             "construct/destruct log keyed by address + serial (each constructed element destroyed exactly once, no "
             "destructor on storage without a live element, nothing alive after the throw), allocator call log "
@@ -26,6 +33,8 @@ def check(prop, tier, only):
             "copies), a follow-up node and array allocation on the same allocator succeeds; on success exactly n "
             "constructions, after release exactly n destructions and one matching deallocation.")
     assumptions = [
+        "The heap fixture runs every case in a forked child (a wrong release can corrupt the process heap); a child that "
+        "dies is reported as run-process-died.",
         "Element type: 16 bytes, alignment 8, potentially-throwing default/value/copy/move constructors "
         "(plus an all-noexcept twin for the no-rollback path of allocate_unique<T[]>, success run only).",
         "Type-erased variants are not run on tracked_allocator<_, heap_allocator>: that combination does not compile "
